@@ -7,7 +7,7 @@ import talgen
 
 PID = 'C07'
 PROOF_MODULES = ['ChamProofs.Props.C07', 'ChamProofs.Props.C07Once', 'ChamProofs.Props.C07Semi']
-THEOREMS = ['ChamVerif.static_fold', 'ChamVerif.C07_static_verbatim', 'ChamVerif.pyIndex_nonneg', 'ChamVerif.pyIndex_minus_one',
+THEOREMS = ['ChamVerif.C07_attr_decoded_once', 'ChamVerif.static_fold', 'ChamVerif.C07_static_verbatim', 'ChamVerif.pyIndex_nonneg', 'ChamVerif.pyIndex_minus_one',
             'ChamVerif.phase1_indexed', 'ChamVerif.C07_name_once', 'ChamVerif.C07Semi.splitStrs_join',
             'ChamVerif.C07Semi.splitParts_strs_eq', 'ChamVerif.C07Semi.C07_statement_list_roundtrip']
 LEVEL_TEXT = ('Proved in Lean: when nothing dynamic targets an element, prepare_attributes yields exactly its static attributes — name, value, '
@@ -244,6 +244,33 @@ def semi_case(rng):
     return {'src': src, 'vars': [], 'objs': [], 'cfg': {}, 'impl_like': exp, 'overlap': False}, exp, adjacent
 
 
+def ent_case(rng):
+    """named tal:attributes entries whose Python string literals hold markup characters and entity-shaped text: the attribute
+    value of the source is XML-decoded once; what the expression then says is the value (D-07e: it was decoded twice)"""
+    import html
+    names = rng.sample(['class', 'id', 'title', 'href', 'new1', 'new2'], rng.randint(1, 3))
+    static = [(n, 's') for n in rng.sample(['class', 'id', 'lang'], rng.randint(0, 2))]
+    entries = []
+    for n in names:
+        v = ''.join(rng.choice(['a', 'b', ' ', '<', '&', '>', '&lt;', '&amp;', '&gt;', '&quot;']) for _ in range(rng.randint(1, 4)))
+        entries.append((n, v))
+    stmt = '; '.join("%s '%s'" % (n, html.escape(v, quote=True)) for n, v in entries)
+    src = '<a' + ''.join(' %s="%s"' % kv for kv in static) + ' tal:attributes="%s"' % stmt + '>x</a>'
+    out = []
+    idx = {}
+    for n, v in static:
+        idx[n] = len(out)
+        out.append((n, v))
+    for n, v in entries:
+        if n in idx:
+            out[idx[n]] = (n, esc(v))
+        else:
+            idx[n] = len(out)
+            out.append((n, esc(v)))
+    exp = '<a' + ''.join(' %s="%s"' % kv for kv in out) + '>x</a>'
+    return {'src': src, 'vars': [], 'objs': [], 'cfg': {}, 'impl_like': exp, 'overlap': False}, exp, any('&' in v and ';' in v for _, v in entries)
+
+
 def spec(v):
     if v is None or isinstance(v, (bool, int)):
         return v
@@ -257,11 +284,12 @@ def correspondence(ctx):
         gen.append(g.template())
     grid = [make_case(ctx.rng)[0] for _ in range(ctx.budget(1200, 40000))]
     semi = [semi_case(ctx.rng)[0] for _ in range(ctx.budget(300, 10000))]
-    pipeline.run_cases(ctx, gen + grid + semi, what='attribute rendering')
+    ent = [ent_case(ctx.rng)[0] for _ in range(ctx.budget(300, 10000))]
+    pipeline.run_cases(ctx, gen + grid + semi + ent, what='attribute rendering')
 
 
 def oracle(ctx):
-    cases = [make_case(ctx.rng) for _ in range(ctx.budget(3000, 100000))] + [semi_case(ctx.rng) for _ in range(ctx.budget(400, 20000))]
+    cases = [make_case(ctx.rng) for _ in range(ctx.budget(3000, 100000))] + [semi_case(ctx.rng) for _ in range(ctx.budget(400, 20000))] + [ent_case(ctx.rng) for _ in range(ctx.budget(400, 20000))]
     impls = pipeline.impl_many([c[0] for c in cases])
     nt = set()
     for (case, exp, nontrivial), impl in zip(cases, impls):
